@@ -261,8 +261,8 @@ def main():
     thorough = tier() == "thorough"
     cases = [("vf.checks.c06:case_pairs_exhaustive", {"kind": k}) for k in si.KINDS]
     cases.append(("vf.checks.c06:case_derived_symbols", {}))
-    nblocks = 64 if thorough else 16
-    per = 2500 if thorough else 250
+    nblocks = 96 if thorough else 48
+    per = 2500 if thorough else 500
     for b in range(nblocks):
         cases.append(("vf.checks.c06:case_random_block", {"seed": "%d/%d" % (seed(), b), "n": per}))
     if thorough:
